@@ -144,13 +144,15 @@ Definition all_weights (x : env) : list Z :=
                          | _ => []
                          end) (iroles (e_roles x))).
 
-(* hooksMapForDestroy: the DESTROY map, where every weight that also has after_DESTROY hooks is
-   REPLACED by those (for k, v := range afterMap { m[k] = v }) *)
+(* hooksMapForDestroy: the DESTROY map with the after_DESTROY hooks merged in per weight, as the source
+   does it (gen/Gen_TdOrder.v, td_after_extends): appended after the DESTROY hooks of that weight, or —
+   the older code, `m[k] = v` — replacing them *)
 Definition merged_at (x : env) (w : Z) : list (N * role) :=
-  match hooks_at x true w with
-  | [] => hooks_at x false w
-  | a => a
-  end.
+  if td_after_extends then hooks_at x false w ++ hooks_at x true w
+  else match hooks_at x true w with
+       | [] => hooks_at x false w
+       | a => a
+       end.
 Definition merged (x : env) : list (list (N * role)) := map (merged_at x) (all_weights x).
 
 Definition group_calls (e : N) (g : list (N * role)) : list tid :=
